@@ -16,6 +16,10 @@ class BW(Worker):
         i, dur, fail = x
         if dur:
             time.sleep(dur / 1000)
+        if fail == 8:
+            raise StopIteration(fail)            # like any other exception of the worker
+        if fail == 9:
+            raise TimeoutError(fail)             # the builtin one (a driver's timeout), not the server's
         if fail:
             raise StageErr(fail)
         return i * 10 + 1
